@@ -4,14 +4,17 @@ import (
 	"bytes"
 	"context"
 	"encoding/binary"
+	"errors"
 	"fmt"
 	"path/filepath"
 	"sort"
 	"strings"
+	"sync"
 	"sync/atomic"
 	"testing"
 
 	metadb "github.com/WuKongIM/WuKongIM/pkg/db/meta"
+	runtimechannelid "github.com/WuKongIM/WuKongIM/pkg/protocol/channelid"
 	"github.com/WuKongIM/WuKongIM/pkg/slot/multiraft"
 	"pgregory.net/rapid"
 	"verif.local/kit"
@@ -107,6 +110,55 @@ func (r *verifC13Replica) applied(rt verifC13Fataler) uint64 {
 	return idx
 }
 
+// directoryGeneration reads the person-directory generation fence stored in the
+// runtime metadata of a person channel (false: no runtime metadata row).
+func (r *verifC13Replica) directoryGeneration(rt verifC13Fataler, hashSlot uint16, channel string) (uint64, bool) {
+	meta, err := r.db.ForHashSlot(hashSlot).GetChannelRuntimeMeta(context.Background(), channel, 1)
+	if errors.Is(err, metadb.ErrNotFound) {
+		return 0, false
+	}
+	if err != nil {
+		rt.Fatalf("VERIF-MACHINERY GetChannelRuntimeMeta(%d,%s,1): %v", hashSlot, channel, err)
+	}
+	return meta.DirectoryGeneration, true
+}
+
+// verifC13PollCtx is a context that reports cancellation from its (allowed+1)-th
+// Err() poll on: a node that starts shutting down while a snapshot install runs.
+type verifC13PollCtx struct {
+	context.Context
+	mu      sync.Mutex
+	allowed int
+	polls   int
+	done    chan struct{}
+	closed  bool
+}
+
+func verifC13NewPollCtx(allowed int) *verifC13PollCtx {
+	c := &verifC13PollCtx{Context: context.Background(), allowed: allowed, done: make(chan struct{})}
+	if allowed == 0 {
+		c.closed = true
+		close(c.done)
+	}
+	return c
+}
+
+func (c *verifC13PollCtx) Done() <-chan struct{} { return c.done }
+
+func (c *verifC13PollCtx) Err() error {
+	c.mu.Lock()
+	defer c.mu.Unlock()
+	if c.polls >= c.allowed {
+		if !c.closed {
+			c.closed = true
+			close(c.done)
+		}
+		return context.Canceled
+	}
+	c.polls++
+	return nil
+}
+
 // verifC13Entries parses a slot snapshot payload into key -> value (diagnostics).
 func verifC13Entries(data []byte) map[string]string {
 	out := map[string]string{}
@@ -173,6 +225,16 @@ type verifC13Cmd struct {
 	conditional bool   // result depends on the state the command meets (create-if-absent, counted, guarded, monotonic)
 	motif       bool   // part of a same-row motif
 	rowKey      string // hashSlot/channel/type for channel-row commands (deleteChannel, subscribers)
+	// metaRows: hashSlot/channel/type of every row whose ChannelRuntimeMeta the
+	// command reads at commit time (measures "generation bump then reader in one batch").
+	metaRows []string
+	person   bool   // one of the person-directory command families (types 63-65)
+	channel  string // the row the command was drawn for / pinned to
+	typ      int64
+}
+
+func verifC13Row(hashSlot uint16, channel string, typ int64) string {
+	return fmt.Sprintf("%d/%s/%d", hashSlot, channel, typ)
 }
 
 var (
@@ -180,7 +242,28 @@ var (
 	verifC13Channels = []string{"c0", "c1", "c2"}
 	verifC13Types    = []int64{2, 3}
 	verifC13Tasks    = []string{"t0", "t1", "t2"}
+	// canonical person (type 1) channel ids over the uid pool
+	verifC13PersonChannels = []string{runtimechannelid.EncodePersonChannel("u0", "u1"), runtimechannelid.EncodePersonChannel("u0", "u2")}
 )
+
+// verifC13PickRow draws the (channel id, channel type) of a row: a type 2/3
+// channel or (3 in 10) a canonical person channel of type 1, whose runtime
+// metadata carries the person-directory generation fence.
+func verifC13PickRow(t *rapid.T) (string, int64) {
+	if rapid.IntRange(0, 9).Draw(t, "personRow") < 3 {
+		return verifC13Pick(t, "personChannel", verifC13PersonChannels), 1
+	}
+	return verifC13Pick(t, "channel", verifC13Channels), verifC13Pick(t, "type", verifC13Types)
+}
+
+// verifC13PersonUID draws one of the two uids of a canonical person channel.
+func verifC13PersonUID(t *rapid.T, channel string) string {
+	left, right, err := runtimechannelid.DecodePersonChannel(channel)
+	if err != nil {
+		t.Fatalf("harness: %q is not a person channel: %v", channel, err)
+	}
+	return verifC13Pick(t, "personUID", []string{left, right})
+}
 
 func verifC13Pick[T any](t *rapid.T, label string, pool []T) T {
 	return pool[rapid.IntRange(0, len(pool)-1).Draw(t, label)]
@@ -206,8 +289,9 @@ func verifC13RuntimeMeta(t *rapid.T) metadb.ChannelRuntimeMeta {
 	if len(isr) > 0 && rapid.IntRange(0, 5).Draw(t, "hasLeader") > 0 {
 		leader = verifC13Pick(t, "leader", isr)
 	}
+	rowChannel, rowType := verifC13PickRow(t)
 	m := metadb.ChannelRuntimeMeta{
-		ChannelID: verifC13Pick(t, "channel", verifC13Channels), ChannelType: verifC13Pick(t, "type", verifC13Types),
+		ChannelID: rowChannel, ChannelType: rowType,
 		ChannelEpoch: uint64(rapid.IntRange(1, 3).Draw(t, "channelEpoch")), LeaderEpoch: uint64(rapid.IntRange(1, 3).Draw(t, "leaderEpoch")),
 		Replicas: replicas, ISR: isr, Leader: leader, MinISR: int64(rapid.IntRange(1, len(replicas)).Draw(t, "minISR")),
 		Status: uint8(rapid.IntRange(1, 2).Draw(t, "status")), Features: uint64(rapid.IntRange(0, 1).Draw(t, "features")),
@@ -224,8 +308,9 @@ func verifC13RuntimeMeta(t *rapid.T) metadb.ChannelRuntimeMeta {
 }
 
 func verifC13Membership(t *rapid.T) metadb.UserChannelMembership {
+	rowChannel, rowType := verifC13PickRow(t)
 	return metadb.UserChannelMembership{
-		UID: verifC13Pick(t, "uid", verifC13Users), ChannelID: verifC13Pick(t, "channel", verifC13Channels), ChannelType: verifC13Pick(t, "type", verifC13Types),
+		UID: verifC13Pick(t, "uid", verifC13Users), ChannelID: rowChannel, ChannelType: rowType,
 		JoinSeq: uint64(rapid.IntRange(0, 4).Draw(t, "joinSeq")), ReadSeq: uint64(rapid.IntRange(0, 6).Draw(t, "readSeq")), DeletedToSeq: uint64(rapid.IntRange(0, 6).Draw(t, "deletedToSeq")),
 		ActivatedAt: int64(rapid.IntRange(0, 5).Draw(t, "activatedAt")), Tombstone: rapid.IntRange(0, 4).Draw(t, "tombstone") == 0, TombstoneAt: int64(rapid.IntRange(0, 5).Draw(t, "tombstoneAt")),
 		SourceVersion: uint64(rapid.IntRange(0, 4).Draw(t, "sourceVersion")), UpdatedAt: int64(rapid.IntRange(1, 9).Draw(t, "updatedAt")),
@@ -233,16 +318,18 @@ func verifC13Membership(t *rapid.T) metadb.UserChannelMembership {
 }
 
 func verifC13CMDMembership(t *rapid.T) metadb.UserCMDChannelMembership {
+	rowChannel, rowType := verifC13PickRow(t)
 	return metadb.UserCMDChannelMembership{
-		UID: verifC13Pick(t, "uid", verifC13Users), CommandChannelID: verifC13Pick(t, "channel", verifC13Channels) + "____cmd", ChannelType: verifC13Pick(t, "type", verifC13Types),
+		UID: verifC13Pick(t, "uid", verifC13Users), CommandChannelID: rowChannel + "____cmd", ChannelType: rowType,
 		StartSeq: uint64(rapid.IntRange(0, 4).Draw(t, "startSeq")), AckSeq: uint64(rapid.IntRange(0, 6).Draw(t, "ackSeq")), Tombstone: rapid.IntRange(0, 4).Draw(t, "tombstone") == 0,
 		TombstoneAt: int64(rapid.IntRange(0, 5).Draw(t, "tombstoneAt")), UpdatedAt: int64(rapid.IntRange(1, 9).Draw(t, "updatedAt")),
 	}
 }
 
 func verifC13Latest(t *rapid.T) metadb.ChannelLatest {
+	rowChannel, rowType := verifC13PickRow(t)
 	return metadb.ChannelLatest{
-		ChannelID: verifC13Pick(t, "channel", verifC13Channels), ChannelType: verifC13Pick(t, "type", verifC13Types), LastMessageID: uint64(rapid.IntRange(1, 50).Draw(t, "lastID")),
+		ChannelID: rowChannel, ChannelType: rowType, LastMessageID: uint64(rapid.IntRange(1, 50).Draw(t, "lastID")),
 		LastMessageSeq: uint64(rapid.IntRange(1, 9).Draw(t, "lastSeq")), LastAt: int64(rapid.IntRange(1, 9).Draw(t, "lastAt")), FromUID: verifC13Pick(t, "from", verifC13Users),
 		ClientMsgNo: "m" + fmt.Sprint(rapid.IntRange(0, 3).Draw(t, "clientMsgNo")), Payload: rapid.SliceOfN(rapid.Byte(), 0, 6).Draw(t, "payload"), UpdatedAt: int64(rapid.IntRange(1, 9).Draw(t, "updatedAt")),
 	}
@@ -261,7 +348,8 @@ var verifC13EventTypes = []string{metadb.EventTypeStreamOpen, metadb.EventTypeSt
 
 func verifC13TaskGuard(t *rapid.T, key verifC13Key) metadb.ChannelMigrationTaskGuard {
 	if key.channel == "" {
-		key.channel, key.typ, key.task = verifC13Pick(t, "channel", verifC13Channels), verifC13Pick(t, "type", verifC13Types), verifC13Pick(t, "task", verifC13Tasks)
+		key.channel, key.typ = verifC13PickRow(t)
+		key.task = verifC13Pick(t, "task", verifC13Tasks)
 	}
 	return metadb.ChannelMigrationTaskGuard{
 		ChannelID: key.channel, ChannelType: key.typ, TaskID: key.task,
@@ -277,6 +365,7 @@ var verifC13Classes = []string{
 	"addSubscribers", "addSubscribers", "removeSubscribers", "upsertMemberships", "deleteMemberships", "advanceReadSeq", "hideMembership", "activateMembership",
 	"upsertCMDMemberships", "advanceCMDAcks", "tombstoneCMDMemberships", "upsertLatest", "upsertLatestBatch", "appendEvent", "appendEvent", "appendEventsBatch",
 	"bindPlugin", "unbindPlugin", "createMigrationTask", "createMigrationTask", "claimMigrationTask", "advanceMigrationTask", "abortMigration", "gcMigrationTasks",
+	"admitPersonDirectory", "admitPersonDirectory", "ensurePersonMemberships", "completePersonDirectory",
 }
 
 // verifC13Key pins the row a generated command addresses (zero fields are drawn).
@@ -316,15 +405,42 @@ var verifC13Motifs = [][]string{
 	{"bindPlugin", "unbindPlugin", "bindPlugin"},
 }
 
+// verifC13PersonMotifs are same-row motifs pinned to a canonical person channel
+// (type 1): deleting a live person channel bumps its runtime metadata's
+// DirectoryGeneration, and every later reader of that row (re-admission,
+// create-if-absent runtime metadata which also ensures the directory task,
+// monotonic upsert, retention advance, completion) must observe the bump even
+// inside the same apply batch.
+var verifC13PersonMotifs = [][]string{
+	{"admitPersonDirectory", "deleteChannel", "admitPersonDirectory"},
+	{"admitPersonDirectory", "completePersonDirectory", "deleteChannel", "admitPersonDirectory", "completePersonDirectory"},
+	{"createRuntimeMetaBatch", "deleteChannel", "upsertRuntimeMeta", "createRuntimeMetaBatch"},
+	{"upsertChannel", "upsertRuntimeMeta", "deleteChannel", "advanceRetention", "admitPersonDirectory"},
+	{"admitPersonDirectory", "ensurePersonMemberships", "completePersonDirectory", "ensurePersonMemberships"},
+	{"admitPersonDirectory", "deleteChannel", "deleteChannel", "completePersonDirectory", "admitPersonDirectory"},
+	{"admitPersonDirectory", "deleteRuntimeMeta", "deleteChannel", "admitPersonDirectory", "upsertRuntimeMeta"},
+	{"upsertRuntimeMeta", "createChannel", "deleteChannel", "upsertRuntimeMeta", "deleteChannel", "admitPersonDirectory"},
+	{"admitPersonDirectory", "completePersonDirectory", "admitPersonDirectory", "upsertChannel", "completePersonDirectory"},
+	{"createRuntimeMetaBatch", "completePersonDirectory", "patchChannelFlags", "createRuntimeMetaBatch", "deleteChannel"},
+}
+
 // verifC13StepGen draws either one command or one motif on a pinned row.
 func verifC13StepGen() *rapid.Generator[[]verifC13Cmd] {
 	return rapid.Custom(func(t *rapid.T) []verifC13Cmd {
 		if rapid.IntRange(0, 9).Draw(t, "motif") < 7 {
 			return []verifC13Cmd{verifC13CmdGen().Draw(t, "cmd")}
 		}
-		key := verifC13Key{hashSlot: verifC13Pick(t, "hashSlot", verifC13Owned), channel: verifC13Pick(t, "channel", verifC13Channels), typ: verifC13Pick(t, "type", verifC13Types),
-			uid: verifC13Pick(t, "uid", verifC13Users), task: verifC13Pick(t, "task", verifC13Tasks)}
-		motif := verifC13Motifs[rapid.IntRange(0, len(verifC13Motifs)-1).Draw(t, "whichMotif")]
+		key := verifC13Key{hashSlot: verifC13Pick(t, "hashSlot", verifC13Owned), task: verifC13Pick(t, "task", verifC13Tasks)}
+		var motif []string
+		if which := rapid.IntRange(0, len(verifC13Motifs)+len(verifC13PersonMotifs)-1).Draw(t, "whichMotif"); which < len(verifC13Motifs) {
+			motif = verifC13Motifs[which]
+			key.channel, key.typ = verifC13PickRow(t)
+			key.uid = verifC13Pick(t, "uid", verifC13Users)
+		} else {
+			motif = verifC13PersonMotifs[which-len(verifC13Motifs)]
+			key.channel, key.typ = verifC13Pick(t, "personChannel", verifC13PersonChannels), 1
+			key.uid = verifC13PersonUID(t, key.channel)
+		}
 		out := make([]verifC13Cmd, 0, len(motif))
 		for _, class := range motif {
 			c := verifC13CmdOf(t, class, key)
@@ -356,7 +472,17 @@ func verifC13CmdOf(t *rapid.T, class string, key verifC13Key) verifC13Cmd {
 		}
 		channel, typ := key.channel, key.typ
 		if channel == "" {
-			channel, typ = verifC13Pick(t, "channel", verifC13Channels), verifC13Pick(t, "type", verifC13Types)
+			channel, typ = verifC13PickRow(t)
+		}
+		c.channel, c.typ = channel, typ
+		personChannel := func(i int) string {
+			if i == 0 && key.typ == 1 {
+				return key.channel
+			}
+			if i == 0 && typ == 1 {
+				return channel
+			}
+			return verifC13Pick(t, "personChannel", verifC13PersonChannels)
 		}
 		pickUID := func() string {
 			if key.uid != "" {
@@ -372,7 +498,9 @@ func verifC13CmdOf(t *rapid.T, class string, key verifC13Key) verifC13Cmd {
 		}
 		switch c.class {
 		case "deleteChannel", "addSubscribers", "removeSubscribers":
-			c.rowKey = fmt.Sprintf("%d/%s/%d", c.hashSlot, channel, typ)
+			c.rowKey = verifC13Row(c.hashSlot, channel, typ)
+		case "deleteRuntimeMeta", "advanceRetention", "abortMigration":
+			c.metaRows = []string{verifC13Row(c.hashSlot, channel, typ)}
 		}
 		switch c.class {
 		case "noop":
@@ -399,7 +527,9 @@ func verifC13CmdOf(t *rapid.T, class string, key verifC13Key) verifC13Cmd {
 		case "deleteChannel":
 			c.data = EncodeDeleteChannelCommand(channel, typ)
 		case "upsertRuntimeMeta":
-			c.data, c.conditional = EncodeUpsertChannelRuntimeMetaCommand(pinMeta(verifC13RuntimeMeta(t))), true
+			m := pinMeta(verifC13RuntimeMeta(t))
+			c.metaRows = []string{verifC13Row(c.hashSlot, m.ChannelID, m.ChannelType)}
+			c.data, c.conditional = EncodeUpsertChannelRuntimeMetaCommand(m), true
 		case "deleteRuntimeMeta":
 			c.data = EncodeDeleteChannelRuntimeMetaCommand(channel, typ)
 		case "advanceRetention":
@@ -419,6 +549,7 @@ func verifC13CmdOf(t *rapid.T, class string, key verifC13Key) verifC13Cmd {
 				if id := fmt.Sprint(m.ChannelType, m.ChannelID); !seen[id] {
 					seen[id] = true
 					items = append(items, CreateChannelRuntimeMetaBatchItem{HashSlot: itemHashSlot, Meta: m})
+					c.metaRows = append(c.metaRows, verifC13Row(itemHashSlot, m.ChannelID, m.ChannelType))
 				}
 			}
 			data, err := EncodeCreateChannelRuntimeMetaBatchCommandChecked(items)
@@ -527,6 +658,82 @@ func verifC13CmdOf(t *rapid.T, class string, key verifC13Key) verifC13Cmd {
 				Status:       metadb.ChannelMigrationStatusAborted, Phase: metadb.ChannelMigrationPhase(rapid.IntRange(1, 2).Draw(t, "phase")), UpdatedAtMS: 3, CompletedAtMS: 3, LastError: "aborted"}), true
 		case "gcMigrationTasks":
 			c.data, c.conditional = EncodeGarbageCollectTerminalChannelMigrationTasksCommand(metadb.ChannelMigrationTaskGCRequest{BeforeMS: int64(rapid.IntRange(1, 9).Draw(t, "before")), Limit: rapid.IntRange(1, 3).Draw(t, "limit")}), true
+		case "admitPersonDirectory":
+			// type 63: create-if-absent runtime metadata + durable directory task per
+			// person channel; the envelope carries the first item's hash slot (as
+			// pkg/cluster/node_meta.go proposes it), a channel appears once per command
+			n := rapid.IntRange(1, 2).Draw(t, "items")
+			items := make([]PersonDirectoryAdmissionBatchItem, 0, n)
+			seen := map[string]bool{}
+			for i := 0; i < n; i++ {
+				ch := personChannel(i)
+				itemHashSlot := verifC13Pick(t, "itemHashSlot", verifC13Owned)
+				if i == 0 {
+					itemHashSlot = c.hashSlot
+				}
+				m := verifC13RuntimeMeta(t)
+				m.ChannelID, m.ChannelType = ch, 1
+				task := metadb.PersonDirectoryTask{ChannelID: ch, ChannelType: 1, CommittedTail: uint64(rapid.IntRange(0, 5).Draw(t, "committedTail")), CreatedAt: int64(rapid.IntRange(0, 5).Draw(t, "createdAt"))}
+				if !seen[ch] {
+					seen[ch] = true
+					items = append(items, PersonDirectoryAdmissionBatchItem{HashSlot: itemHashSlot, Task: task, RuntimeMeta: m})
+					c.metaRows = append(c.metaRows, verifC13Row(itemHashSlot, ch, 1))
+				}
+			}
+			data, err := EncodeAdmitPersonDirectoryTaskBatchCommandChecked(items)
+			if err != nil {
+				t.Fatalf("harness: person directory admission refused by the encoder: %v", err)
+			}
+			c.data, c.conditional, c.person = data, true, true
+		case "completePersonDirectory":
+			// type 65: delete the pending task and mark the channel ready, fenced by
+			// the generation the worker read from the task
+			n := rapid.IntRange(1, 2).Draw(t, "items")
+			items := make([]PersonDirectoryCompletionBatchItem, 0, n)
+			seen := map[string]bool{}
+			for i := 0; i < n; i++ {
+				ch := personChannel(i)
+				itemHashSlot := verifC13Pick(t, "itemHashSlot", verifC13Owned)
+				if i == 0 {
+					itemHashSlot = c.hashSlot
+				}
+				generation := uint64(rapid.SampledFrom([]int{1, 1, 1, 1, 2, 2, 3}).Draw(t, "generation"))
+				if id := fmt.Sprint(itemHashSlot, ch); !seen[id] {
+					seen[id] = true
+					items = append(items, PersonDirectoryCompletionBatchItem{HashSlot: itemHashSlot, ChannelID: ch, ChannelType: 1, Generation: generation})
+				}
+			}
+			data, err := EncodeCompletePersonDirectoryTaskBatchCommandChecked(items)
+			if err != nil {
+				t.Fatalf("harness: person directory completion refused by the encoder: %v", err)
+			}
+			c.data, c.conditional, c.person = data, true, true
+		case "ensurePersonMemberships":
+			// type 64: create-or-fence-advance uid memberships of person channels
+			n := rapid.IntRange(1, 3).Draw(t, "items")
+			items := make([]UserChannelMembershipBatchItem, 0, n)
+			seen := map[string]bool{}
+			for i := 0; i < n; i++ {
+				ms := verifC13Membership(t)
+				ms.ChannelID, ms.ChannelType = personChannel(i), 1
+				ms.UID = verifC13PersonUID(t, ms.ChannelID)
+				if i == 0 && key.typ == 1 && key.uid != "" {
+					ms.UID = key.uid
+				}
+				itemHashSlot := verifC13Pick(t, "itemHashSlot", verifC13Owned)
+				if i == 0 {
+					itemHashSlot = c.hashSlot
+				}
+				if id := fmt.Sprint(itemHashSlot, ms.UID, ms.ChannelID); !seen[id] {
+					seen[id] = true
+					items = append(items, UserChannelMembershipBatchItem{HashSlot: itemHashSlot, Membership: ms})
+				}
+			}
+			data, err := EncodeEnsureUserChannelMembershipBatchCommandChecked(items)
+			if err != nil {
+				t.Fatalf("harness: ensured membership batch refused by the encoder: %v", err)
+			}
+			c.data, c.conditional, c.person = data, true, true
 		}
 		return c
 	}
@@ -606,6 +813,14 @@ func verifC13AvoidKnown(log []verifC13Cmd, from int, parts [][2]int) ([][2]int, 
 
 type verifC13Stats struct {
 	stale, multiBatchConditional, multiBatchWithStale, batches, restarts, replayedTails, knownCuts int
+	// bumpRow[i] (input, measured on the reference replica): the person-channel row
+	// whose DirectoryGeneration command i advanced, "" if none.
+	bumpRow []string
+	// batches in which such a bump was followed by a reader of that row's runtime metadata
+	bumpThenReadInBatch, bumpThenAdmitInBatch int
+	// batches in which a successful person-directory completion was followed by
+	// another command on a person channel row
+	completeThenPersonInBatch int
 }
 
 // verifC13ApplyPartition applies log[from:] (indexes from+1..) to r in the given
@@ -639,10 +854,30 @@ func verifC13ApplyPartition(rt *rapid.T, name string, r *verifC13Replica, log []
 		lo, hi := from+p[0], from+p[1]
 		cmds := make([]multiraft.Command, 0, hi-lo)
 		conditional, stale := false, false
+		bumped, bumpThenRead, bumpThenAdmit := map[string]bool{}, false, false
+		completed, completeThenPerson := false, false
 		for i := lo; i < hi; i++ {
 			cmds = append(cmds, verifC13Command(log[i], uint64(i+1)))
 			conditional = conditional || log[i].conditional
 			stale = stale || string(want[i]) == ApplyResultStaleMeta
+			for _, row := range log[i].metaRows {
+				bumpThenRead = bumpThenRead || bumped[row]
+				bumpThenAdmit = bumpThenAdmit || (bumped[row] && log[i].class == "admitPersonDirectory")
+			}
+			if i < len(st.bumpRow) && st.bumpRow[i] != "" {
+				bumped[st.bumpRow[i]] = true
+			}
+			completeThenPerson = completeThenPerson || (completed && log[i].typ == 1)
+			completed = completed || (log[i].class == "completePersonDirectory" && string(want[i]) == ApplyResultOK)
+		}
+		if completeThenPerson {
+			st.completeThenPersonInBatch++
+		}
+		if bumpThenRead {
+			st.bumpThenReadInBatch++
+		}
+		if bumpThenAdmit {
+			st.bumpThenAdmitInBatch++
 		}
 		results, err := r.sm.ApplyBatch(context.Background(), cmds)
 		if err != nil {
@@ -736,12 +971,18 @@ func TestVerifC13BatchTransparency(t *testing.T) {
 		var want [][]byte
 		durableRef := []uint64{0}  // durableRef[i] = durable applied index after i accepted commands
 		snapAt := map[int][]byte{} // prefix length -> snapshot bytes
+		wrongAt := map[int][][]byte{} // prefix length -> well-formed snapshots of other hash-slot sets
+		var bumpRow []string          // per accepted command: person row whose directory generation it advanced
 		snapTargets := map[int]bool{}
 		for i, n := 0, rapid.IntRange(1, kit.Scale("C13_SNAPS", 2, 6)).Draw(rt, "snapshotPrefixes"); i < n; i++ {
 			snapTargets[rapid.IntRange(1, 3+len(raw)/2).Draw(rt, "snapshotAt")] = true
 		}
 		refused := 0
 		for _, c := range raw {
+			genBefore, hadMeta := uint64(0), false
+			if c.class == "deleteChannel" && c.typ == 1 {
+				genBefore, hadMeta = ref.directoryGeneration(rt, c.hashSlot, c.channel)
+			}
 			res, err := ref.sm.Apply(context.Background(), verifC13Command(c, uint64(len(log)+1)))
 			if err != nil {
 				// a side effect of a refused command would surface below as a difference
@@ -751,6 +992,12 @@ func TestVerifC13BatchTransparency(t *testing.T) {
 			}
 			log = append(log, c)
 			want = append(want, res)
+			bumpRow = append(bumpRow, "")
+			if hadMeta {
+				if genAfter, _ := ref.directoryGeneration(rt, c.hashSlot, c.channel); genAfter > genBefore {
+					bumpRow[len(bumpRow)-1] = verifC13Row(c.hashSlot, c.channel, 1)
+				}
+			}
 			durable := ref.applied(rt)
 			if durable != uint64(len(log)) && (durable != durableRef[len(durableRef)-1] || string(res) != ApplyResultStaleMeta) {
 				rt.Fatalf("after command %d (%s -> %q) DurableAppliedIndex = %d (was %d): neither the command index nor an unmoved index below a stale no-op", len(log), c.class, res, durable, durableRef[len(durableRef)-1])
@@ -758,6 +1005,7 @@ func TestVerifC13BatchTransparency(t *testing.T) {
 			durableRef = append(durableRef, durable)
 			if snapTargets[len(log)] {
 				snapAt[len(log)] = ref.snapshot(rt)
+				wrongAt[len(log)] = [][]byte{ref.export(rt, verifC13Owned[:1]), ref.export(rt, append(append([]uint16(nil), verifC13Owned...), verifC13Unowned)), ref.export(rt, []uint16{verifC13Unowned})}
 			}
 		}
 		if len(log) < 4 {
@@ -769,6 +1017,7 @@ func TestVerifC13BatchTransparency(t *testing.T) {
 			rt.Fatalf("two snapshots of the same state differ: %s", verifC13Diff(final, again))
 		}
 		var st verifC13Stats
+		st.bumpRow = bumpRow
 		for _, w := range want {
 			if string(w) == ApplyResultStaleMeta {
 				st.stale++
@@ -831,6 +1080,101 @@ func TestVerifC13BatchTransparency(t *testing.T) {
 			}
 			r.close(rt)
 		}
+
+		// (e) a snapshot install that fails or is interrupted on a lagging replica,
+		// then a restart; the runtime either resumes the committed log above the
+		// durable applied index (multiraft.newSlot) or retries the intact snapshot.
+		// Either way the replica must end in the reference metadata.
+		installKind, installOutcome, installRestart := "", "", false
+		if len(prefixes) > 0 {
+			p := prefixes[rapid.IntRange(0, len(prefixes)-1).Draw(rt, "installPrefix")]
+			r := newReplica("install")
+			q := rapid.IntRange(0, p-1).Draw(rt, "laggingApplied")
+			if q > 0 {
+				verifC13ApplyPartition(rt, "lagging replica", r, log, want, durableRef, 0, verifC13Partition(rt, "lagging", q), nil, &st)
+			}
+			before, appliedBefore := r.snapshot(rt), r.applied(rt)
+			snap := multiraft.Snapshot{Index: uint64(p), Term: 1, Data: append([]byte(nil), snapAt[p]...)}
+			ctx := context.Context(context.Background())
+			switch rapid.IntRange(0, 4).Draw(rt, "installFailure") {
+			case 0:
+				pos := rapid.IntRange(0, len(snap.Data)-1).Draw(rt, "damagedAt")
+				snap.Data[pos] ^= byte(rapid.IntRange(1, 255).Draw(rt, "damageMask"))
+				installKind = "damaged payload"
+			case 1:
+				snap.Data = snap.Data[:rapid.IntRange(0, len(snap.Data)-1).Draw(rt, "truncatedTo")]
+				installKind = "truncated payload"
+			case 2:
+				snap.Data = append([]byte(nil), wrongAt[p][rapid.IntRange(0, len(wrongAt[p])-1).Draw(rt, "wrongHashSlotSet")]...)
+				installKind = "snapshot of another hash-slot set"
+			default:
+				ctx = verifC13NewPollCtx(rapid.SampledFrom([]int{0, 0, 0, 1, 2, 4}).Draw(rt, "cancelAtPoll"))
+				installKind = "context cancelled during install"
+			}
+			installErr := r.sm.Restore(ctx, snap)
+			name := fmt.Sprintf("install of the snapshot at %d on a replica at %d (%s)", p, q, installKind)
+			switch {
+			case installErr == nil:
+				// Restore reported the snapshot as installed: the runtime now treats every
+				// entry up to snap.Index as applied, so the metadata must be the snapshot's
+				// (an intact payload under an expiring context; a damaged or foreign
+				// payload can only get here by being wrongly accepted)
+				installOutcome = "install reported success"
+				if got := r.applied(rt); got != uint64(p) {
+					rt.Fatalf("%s returned nil but DurableAppliedIndex = %d", name, got)
+				}
+				if d := verifC13Diff(snapAt[p], r.snapshot(rt)); d != "" {
+					rt.Fatalf("%s returned nil but the metadata is not the snapshot's: %s", name, d)
+				}
+			default:
+				installOutcome = "install failed"
+				applied, state := r.applied(rt), r.snapshot(rt)
+				switch applied {
+				case appliedBefore:
+					if d := verifC13Diff(before, state); d != "" {
+						rt.Fatalf("%s failed (%v) and left DurableAppliedIndex at %d but changed the metadata: %s", name, installErr, applied, d)
+					}
+				case uint64(p):
+					if d := verifC13Diff(snapAt[p], state); d != "" {
+						rt.Fatalf("%s failed (%v) but moved DurableAppliedIndex %d -> %d although the metadata is not the snapshot's (entries %d..%d would never be applied): %s", name, installErr, appliedBefore, applied, appliedBefore+1, p, d)
+					}
+				}
+			}
+			{
+				if installRestart = rapid.IntRange(0, 3).Draw(rt, "restartAfterInstall") > 0; installRestart {
+					applied := r.applied(rt)
+					r.reopen(rt)
+					if got := r.applied(rt); got != applied {
+						rt.Fatalf("%s: DurableAppliedIndex = %d before and %d after a restart", name, applied, got)
+					}
+				}
+				if installErr != nil && rapid.Bool().Draw(rt, "retryIntactSnapshot") {
+					installOutcome += ", intact snapshot retried"
+					if err := r.sm.Restore(context.Background(), multiraft.Snapshot{Index: uint64(p), Term: 1, Data: snapAt[p]}); err != nil {
+						rt.Fatalf("%s: retry of the intact snapshot failed: %v", name, err)
+					}
+					if got := r.applied(rt); got != uint64(p) {
+						rt.Fatalf("%s: DurableAppliedIndex = %d after the retry of the intact snapshot", name, got)
+					}
+					if d := verifC13Diff(snapAt[p], r.snapshot(rt)); d != "" {
+						rt.Fatalf("%s: retried intact snapshot does not survive restore+snapshot: %s", name, d)
+					}
+				} else if installErr != nil {
+					installOutcome += ", log replayed above the durable index"
+				}
+				from := int(r.applied(rt))
+				if from > len(log) {
+					rt.Fatalf("%s: DurableAppliedIndex = %d beyond the committed log (%d)", name, from, len(log))
+				}
+				if from < len(log) {
+					verifC13ApplyPartition(rt, name+" then replay", r, log, want, durableRef, from, verifC13Partition(rt, "afterInstall", len(log)-from), nil, &st)
+				}
+				if d := verifC13Diff(final, r.snapshot(rt)); d != "" {
+					rt.Fatalf("%s (%s, restart=%v) then applying log[%d:] ends in different metadata than the reference: %s", name, installOutcome, installRestart, from, d)
+				}
+			}
+			r.close(rt)
+		}
 		ref.close(rt)
 
 		classes := map[string]bool{}
@@ -856,6 +1200,35 @@ func TestVerifC13BatchTransparency(t *testing.T) {
 		k.LabelIf(len(prefixes) > 0, "snapshot/restore at a prefix")
 		k.LabelIf(dirtyRestores > 0, "snapshot restored over existing state")
 		k.LabelIf(refused > 0, "generator produced a refused command (dropped)")
+		personCmds, personRows, bumps := 0, 0, 0
+		for i, c := range log {
+			if c.person {
+				personCmds++
+			}
+			if c.typ == 1 {
+				personRows++
+			}
+			if bumpRow[i] != "" {
+				bumps++
+			}
+		}
+		k.LabelIf(personCmds > 0, "log has person-directory commands (types 63-65)")
+		k.LabelIf(personRows > 0, "log has commands on a person (type 1) channel row")
+		k.LabelIf(bumps > 0, "live person channel deleted (DirectoryGeneration bumped)")
+		for i, c := range log {
+			if c.class == "completePersonDirectory" && string(want[i]) == ApplyResultOK {
+				k.Label("person-directory completion succeeded")
+				break
+			}
+		}
+		k.LabelIf(st.completeThenPersonInBatch > 0, "one batch: successful completion then another person-row command")
+		k.LabelIf(st.bumpThenReadInBatch > 0, "one batch: generation bump then a runtime-meta reader of that row")
+		k.LabelIf(st.bumpThenAdmitInBatch > 0, "one batch: generation bump then re-admission of that person channel")
+		if installKind != "" {
+			k.Label("snapshot install: " + installKind)
+			k.Label("snapshot install outcome: " + installOutcome)
+			k.LabelIf(installRestart, "snapshot install followed by a restart")
+		}
 		k.LabelIf(len(classes) >= 12, ">=12 command classes in the log")
 		for _, w := range want {
 			if r := string(w); r != ApplyResultOK && r != ApplyResultStaleMeta && r != ApplyResultHashSlotFenced {
@@ -1051,10 +1424,35 @@ func TestVerifC13Refusal(t *testing.T) {
 			bad.HashSlot = verifC13Unowned
 		case 1:
 			kind = "scoped item for an unowned hash slot"
-			if rapid.Bool().Draw(rt, "latestBatch") {
+			switch scoped := rapid.IntRange(0, 4).Draw(rt, "scopedKind"); scoped {
+			case 0:
 				bad = verifC13Command(verifC13Cmd{hashSlot: verifC13Owned[0], data: EncodeUpsertChannelLatestBatchCommand([]ChannelLatestBatchItem{
 					{HashSlot: verifC13Owned[0], Latest: verifC13Latest(rt)}, {HashSlot: verifC13Unowned, Latest: verifC13Latest(rt)}})}, index+1)
-			} else {
+			case 1, 2, 3:
+				// person-directory batches (types 63-65): one item for an owned and one for the foreign hash slot
+				var data []byte
+				var err error
+				m1, m2 := verifC13RuntimeMeta(rt), verifC13RuntimeMeta(rt)
+				m1.ChannelID, m1.ChannelType, m2.ChannelID, m2.ChannelType = verifC13PersonChannels[0], 1, verifC13PersonChannels[1], 1
+				switch scoped {
+				case 1:
+					data, err = EncodeAdmitPersonDirectoryTaskBatchCommandChecked([]PersonDirectoryAdmissionBatchItem{
+						{HashSlot: verifC13Owned[0], Task: metadb.PersonDirectoryTask{ChannelID: m1.ChannelID, ChannelType: 1, CommittedTail: 1, CreatedAt: 1}, RuntimeMeta: m1},
+						{HashSlot: verifC13Unowned, Task: metadb.PersonDirectoryTask{ChannelID: m2.ChannelID, ChannelType: 1, CommittedTail: 1, CreatedAt: 1}, RuntimeMeta: m2}})
+				case 2:
+					ms1, ms2 := verifC13Membership(rt), verifC13Membership(rt)
+					ms1.ChannelID, ms1.ChannelType, ms1.UID = m1.ChannelID, 1, verifC13PersonUID(rt, m1.ChannelID)
+					ms2.ChannelID, ms2.ChannelType, ms2.UID = m2.ChannelID, 1, verifC13PersonUID(rt, m2.ChannelID)
+					data, err = EncodeEnsureUserChannelMembershipBatchCommandChecked([]UserChannelMembershipBatchItem{{HashSlot: verifC13Owned[0], Membership: ms1}, {HashSlot: verifC13Unowned, Membership: ms2}})
+				default:
+					data, err = EncodeCompletePersonDirectoryTaskBatchCommandChecked([]PersonDirectoryCompletionBatchItem{
+						{HashSlot: verifC13Owned[0], ChannelID: m1.ChannelID, ChannelType: 1, Generation: 1}, {HashSlot: verifC13Unowned, ChannelID: m2.ChannelID, ChannelType: 1, Generation: 1}})
+				}
+				if err != nil {
+					rt.Fatalf("harness: %v", err)
+				}
+				bad = verifC13Command(verifC13Cmd{hashSlot: verifC13Owned[0], data: data}, index+1)
+			default:
 				m1, m2 := verifC13RuntimeMeta(rt), verifC13RuntimeMeta(rt)
 				m2.ChannelID = m1.ChannelID + "x"
 				data, err := EncodeCreateChannelRuntimeMetaBatchCommandChecked([]CreateChannelRuntimeMetaBatchItem{{HashSlot: verifC13Owned[1], Meta: m1}, {HashSlot: verifC13Unowned, Meta: m2}})
